@@ -33,12 +33,20 @@ deriving DecidableEq, Repr
 /-- `uintptr_t(ptr) op raw_rhs * sizeof(*impl())` followed by the `is_in_same_sandbox` check,
 exactly as coded: `raw_rhs` is converted to `size_t` (mod 2^64), the product and the sum wrap
 mod 2^64.  `s` is `sizeof(tainted_volatile<T>)`, the guest size of the pointee. -/
-def ptrArith (k : Nat) (f : ArithForm) (p : Nat) (n : Int) (s : Nat) : Option Nat :=
+def ptrArithCore (k : Nat) (f : ArithForm) (p : Nat) (n : Int) (s : Nat) : Option Nat :=
   if p = 0 then none else
   let nU : Nat := (n % (W64 : Int)).toNat
   let d : Nat := (nU * s) % W64
   let t : Nat := if f = .sub then (p + W64 - d) % W64 else (p + d) % W64
   if sameSbx k p t then some t else none
+
+/-- `detail::check_pointer_offset(raw_rhs, sizeof)`: `|raw_rhs| <= (UINTPTR_MAX / 2) / sizeof` -/
+def offsetOk (n : Int) (s : Nat) : Bool := decide (n.natAbs ≤ ((W64 - 1) / 2) / s)
+
+/-- tainted pointer arithmetic as coded: null check, offset magnitude check, wrapped arithmetic,
+same-sandbox check -/
+def ptrArith (k : Nat) (f : ArithForm) (p : Nat) (n : Int) (s : Nat) : Option Nat :=
+  if offsetOk n s then ptrArithCore k f p n s else none
 
 /-- the exact (mathematical) target address -/
 def exactTarget (f : ArithForm) (p : Nat) (n : Int) (s : Nat) : Int :=
